@@ -61,6 +61,10 @@ type Event struct {
 	ViaHook       bool
 	StaleUse      bool
 	MembersBefore map[int]bool // subscribers seen attached to Inst right before Call (nil = unknown)
+	// After: events of the same Start instance that were known to be inside their fan-out (holding
+	// the updater's event gate) when this event was issued, although they had not returned yet: the
+	// source emitted them earlier, every subscriber must see them earlier.
+	After []*Event
 }
 
 type DoneEv struct {
@@ -770,6 +774,13 @@ func (r *Rig) newEvent(key int, inst *Instance, g int, target *Subscriber) *Even
 
 // Emit sends one event through the instance: Update (target nil) or UpdateSubscription.
 func (r *Rig) Emit(inst *Instance, g int, target *Subscriber, staleUse bool) *Event {
+	return r.EmitOrdered(inst, g, target, staleUse, nil, nil)
+}
+
+// EmitOrdered is Emit for sources that emit from several goroutines: after lists the events of the
+// same instance that are known to have been admitted before this one is issued; created (if not
+// nil) receives the event record before the updater is called.
+func (r *Rig) EmitOrdered(inst *Instance, g int, target *Subscriber, staleUse bool, after []*Event, created func(*Event)) *Event {
 	if inst == nil || inst.Key < 0 {
 		r.skip("emit:no-instance")
 		return nil
@@ -788,7 +799,11 @@ func (r *Rig) Emit(inst *Instance, g int, target *Subscriber, staleUse bool) *Ev
 	}
 	e := r.newEvent(inst.Key, inst, g, target)
 	e.StaleUse = staleUse
+	e.After = after
 	e.MembersBefore = r.snapshot(inst)
+	if created != nil {
+		created(e)
+	}
 	e.Call = r.Clock.Tick()
 	if target != nil {
 		inst.Updater.UpdateSubscription(tid, []byte(e.Payload))
